@@ -437,6 +437,23 @@ def run(ctx):
         if merged != want:
             ctx.violation("merge_servers is not the union of the sharemap and the trackers' buckets",
                           {"sharemap": sm_items, "trackers": tr}, "merge-not-union")
+        # the uploader's happiness test: real PeerSelector bookkeeping -> get_sharemap_of_preexisting_shares -> merge -> soh
+        from allmydata.immutable.upload import PeerSelector
+        ps = PeerSelector(1, nshare, 1, 1)
+        for srv, shs in items:                 # existing shares as the selector records them: server -> shares
+            for sh in shs:
+                ps.add_peer_with_share(srv, sh)
+        eff = hu.servers_of_happiness(hu.merge_servers(ps.get_sharemap_of_preexisting_shares(),
+                                                       set(T(sid, {b: None for b in bs}) for sid, bs in tr)))
+        ex_items = [(k, sorted(v)) for k, v in ps.existing_shares.items()]
+        c_descr.append({"fn": "upload happiness test (effectiveHappiness)", "existing": ex_items, "trackers": tr})
+        c_impl.append(str(eff))
+        c_lines.append("eff %s %s" % (enc_setmap(ex_items), enc_setmap(tr)))
+        ctx.case(("eff", c_lines[-1]) if ex_items else None)
+        ref_eff = kuhn_max_matching([(srv, sh) for srv, shs in ex_items for sh in shs] + [(sid, b) for sid, bs in tr for b in bs])
+        if eff != ref_eff:
+            ctx.violation("the uploader's happiness test differs from the maximum matching of existing shares and allocated buckets",
+                          {"existing": ex_items, "trackers": tr, "impl": eff, "max_matching": ref_eff}, "effective-happiness-wrong")
         ctx.count("helpers:sbs/fnf/merge")
     model = ctx.model(c_lines)
     if model is not None:
